@@ -112,6 +112,8 @@ func modelFunctions(V []interface{}, single bool, funcs []int, faults [nFuncs]ui
 			if len(arg) > 0 {
 				r = arg[0]
 			}
+		case fRet:
+			r = listArg(arg)
 		default:
 			cp := make([]interface{}, len(arg)) // what the menu's "all"/"af" return: a non-nil copy
 			copy(cp, arg)
